@@ -72,14 +72,18 @@ def make_pool(seed, n, scratch):
             lk = rnd.choice(libs)
             with open(os.path.join(root, lk), encoding="utf-8") as f:
                 ltext = f.read()
-            jobs.append({"k": "compile", "text": ltext, "path": os.path.join(root, lk), "lookup": lookup, "cls": "layout-lib"})
-            jobs[-2]["after"] = ltext
+            jobs.append({"k": "compile", "text": ltext, "path": os.path.join(root, lk), "lookup": lookup, "cls": "layout-lib", "keep": i == 0})
+            # ... or an edited version of it that does not compile (an editor compiles the buffer, the file on disk is still fine)
+            broken = 'import "./does_not_exist_anywhere.exps";\n' + ltext
+            jobs.append({"k": "compile", "text": broken, "path": os.path.join(root, lk), "lookup": lookup, "cls": "layout-lib-broken", "keep": i == 0})
+            jobs[-3]["after"] = rnd.choice([ltext, broken])
+            jobs[-3]["keep"] = i == 0
     # deeply nested programs: whether they compile depends on the interpreter's recursion limit, which must not depend on history
-    for depth in rnd.sample([40, 90, 150, 220], 2):
+    for depth in [rnd.choice([40, 90]), rnd.choice([150, 220])]:
         body = "a();"
         for d in range(depth):
             body = f"if ($A == {d}) {{ {body} }}"
-        jobs.append({"k": "compile", "text": "def 0 { " + body + " end; }", "cls": "deep-nesting"})
+        jobs.append({"k": "compile", "text": "def 0 { " + body + " end; }", "cls": "deep-nesting", "keep": depth >= 150})
     # decompile jobs
     kinds = ["compiled", "compiled", "relaid", "cfg", "special", "flat"]
     for kind in kinds:
@@ -95,7 +99,10 @@ def make_pool(seed, n, scratch):
                 except Exception:
                     pass
     rnd.shuffle(jobs)
+    # (jobs that exist for a particular kind of history / schedule survive the cut)
+    jobs.sort(key=lambda j: 0 if j.get("keep") else 1)
     jobs = jobs[:n]
+    rnd.shuffle(jobs)
     for i, j in enumerate(jobs):
         j["id"] = i
     by_text = {j.get("text"): j["id"] for j in jobs if j["k"] == "compile"}
